@@ -350,6 +350,53 @@ class FromSingleIntervals(Case):
             yield dict(ivs=[[1, 3, "PLUS", p], [5, 8, "PLUS", p], [8, 9, "PLUS", p]])
 
 
+class CompoundOnSequence(Case):
+    """CompoundInterval (2 blocks that may overlap or nest) on a parent carrying sequence: the constructor and
+    shift_position refuse coordinates outside the sequence for EVERY block (not only the last one in sort order), and
+    what they return lies inside it."""
+    props = ("C19", "C02")
+    func = COMPOUND + ".shift_position"
+    module = "location.location_impl"
+
+    def __init__(self, op):
+        self.op = op
+        if op == "shift_position":
+            self.name = "CompoundInterval.shift_position[2 blocks, overlapping / nested allowed, parent with sequence]"
+            self.call = "(lambda r: [(b.start, b.end) for b in r.blocks])(CompoundInterval(starts, ends, strand, parent).shift_position(k))"
+            self.raises = {"InvalidPositionException": lambda i: Or(Min(i.starts[0], i.starts[1]) + i.k < 0,
+                                                                   Max(i.ends[0], i.ends[1]) + i.k > i.L)}
+            self.ensures = {"every-block-shifted-by-k": lambda i, r: And(
+                len(r) == 2, *[Or(*[And(b[0] == s + i.k, b[1] == e + i.k) for b in r]) for s, e in zip(i.starts, i.ends)])}
+        else:
+            self.name = "CompoundInterval.__init__[2 blocks, overlapping / nested allowed, parent with sequence]"
+            self.func = COMPOUND + ".__init__"
+            # construction only: nothing that validates lazily (blocks) is touched afterwards
+            self.call = "(lambda r: (r.num_blocks, len(r)))(CompoundInterval(starts, ends, strand, parent))"
+            self.raises = {"InvalidPositionException": lambda i: Max(i.ends[0], i.ends[1]) > i.L}
+            self.ensures = {"built": lambda i, r: And(r[0] == 2, r[1] == (i.ends[0] - i.starts[0]) + (i.ends[1] - i.starts[1]))}
+
+    def inputs(self, S):
+        from .gene_common import block_lists, strand_of
+        starts, ends = block_lists(S, "loc", 2, nonempty=False, allow_overlap=True)
+        strand = strand_of(S, "strand", directed=False)
+        parent, L = parent_with_sequence(S)
+        k = S.int("k") if self.op == "shift_position" else 0
+        if self.op == "shift_position":
+            S.assume(Max(ends[0], ends[1]) <= L)  # the source location is valid
+        return NS(starts=starts, ends=ends, strand=strand, parent=parent, L=L, k=k, CompoundInterval=S.cls(COMPOUND))
+
+    def samples(self, rng):
+        a = rng.randint(0, 6)
+        b = a + rng.randint(0, 6)
+        c = rng.randint(a, a + 4)
+        d = c + rng.randint(0, 6)
+        if (c, d) < (a, b):
+            a, b, c, d = c, d, a, b
+        L = max(b, d) + rng.randint(0, 3) if self.op == "shift_position" or rng.random() < 0.6 else max(1, max(b, d) - rng.randint(1, 3))
+        return dict(loc_starts=[a, c], loc_ends=[b, d], strand=rng.choice(["PLUS", "MINUS", "UNSTRANDED"]),
+                    seq="".join(rng.choice("ACGT") for _ in range(L)), k=rng.randint(-4, 5))
+
+
 class OpenEndedSlice(Case):
     """slices with an omitted bound on a sequence that records a location."""
     props = ("C19", "C03")
@@ -373,4 +420,5 @@ class OpenEndedSlice(Case):
 
 CASES = [OpenEndedSlice(), TranscriptCdsBounds(), TranscriptCdsArgs(), CdsInitShape("FF"), CdsInitShape("PP"), CdsInitShape("FP"),
          CdsInitShape("F"), CdsInitShape("FFF"), VariantInit(), EmptyCollections(), AnnotationCollectionBounds(),
-         InitializeLocation(), SequenceInit(), ParentConsistency(), FromSingleIntervals()]
+         InitializeLocation(), SequenceInit(), ParentConsistency(), FromSingleIntervals(),
+         CompoundOnSequence("shift_position"), CompoundOnSequence("__init__")]
